@@ -283,61 +283,80 @@ impl Request {
     }
 
     pub fn cursor_read(cursor: &mut Cursor<&[u8]>, mut iteration_number: usize, request: &mut Request, mut content_length: usize) -> Result<bool, String> {
-        let mut buf = vec![];
-        let bytes_offset = cursor.read_until(b'\n', &mut buf).unwrap();
-        let b : &[u8] = &buf;
-        let boxed_request = String::from_utf8(Vec::from(b));
-        if boxed_request.is_err() {
-            let error_message = boxed_request.err().unwrap().to_string();
-            return Err(error_message);
-        }
-        let string = boxed_request.unwrap();
+        // lines are read in a loop: one nested call per header line overflowed the stack of the worker thread
+        // for a request with a couple of thousands of header lines. An error on a line after the one this call
+        // started with is logged and ends the header section, as it did when it was reported by a nested call
+        let starting_iteration_number = iteration_number;
 
-        let is_first_iteration = iteration_number == 0;
-        let new_line_char_found = bytes_offset != 0;
-        let current_string_is_empty = string.trim().len() == 0;
+        loop {
+            let is_starting_iteration = iteration_number == starting_iteration_number;
 
-        if is_first_iteration {
-            match Request::parse_method_and_request_uri_and_http_version_string(&string) {
-                Ok((method, request_uri, http_version)) => {
-                    request.method = method;
-                    request.request_uri = request_uri;
-                    request.http_version = http_version;
+            let mut buf = vec![];
+            let bytes_offset = cursor.read_until(b'\n', &mut buf).unwrap();
+            let b : &[u8] = &buf;
+            let boxed_request = String::from_utf8(Vec::from(b));
+            if boxed_request.is_err() {
+                let error_message = boxed_request.err().unwrap().to_string();
+                if is_starting_iteration {
+                    return Err(error_message);
                 }
-                Err(error_message) => {
-                    return Err(error_message)
-                }
+                eprintln!("unable to read request: {}", error_message);
+                break;
             }
-        }
+            let string = boxed_request.unwrap();
 
-        if current_string_is_empty {
-            return Ok(true);
-        }
+            let is_first_iteration = iteration_number == 0;
+            let new_line_char_found = bytes_offset != 0;
+            let current_string_is_empty = string.trim().len() == 0;
 
-        if new_line_char_found && !current_string_is_empty {
-            let mut header = Header { name: "".to_string(), value: "".to_string() };
-            if !is_first_iteration {
-                header = Request::parse_http_request_header_string(&string);
-                if header.name == Header::_CONTENT_LENGTH {
-                    let boxed_content_length = header.value.parse();
-                    if boxed_content_length.is_err() {
-                        let message = format!("unable to parse Content-Length: {}", header.value);
-                        return Err(message);
+            if is_first_iteration {
+                match Request::parse_method_and_request_uri_and_http_version_string(&string) {
+                    Ok((method, request_uri, http_version)) => {
+                        request.method = method;
+                        request.request_uri = request_uri;
+                        request.http_version = http_version;
                     }
-                    content_length = boxed_content_length.unwrap();
+                    Err(error_message) => {
+                        return Err(error_message)
+                    }
                 }
             }
 
-            request.headers.push(header);
-            iteration_number += 1;
-            let boxed_read = Request::cursor_read(cursor, iteration_number, request, content_length);
-            if boxed_read.is_err() {
-                let reason = boxed_read.err().unwrap().to_string();
-                eprintln!("unable to read request: {}", reason);
+            if current_string_is_empty {
+                if is_starting_iteration {
+                    return Ok(true);
+                }
+                break;
             }
+
+            if new_line_char_found && !current_string_is_empty {
+                let mut header = Header { name: "".to_string(), value: "".to_string() };
+                if !is_first_iteration {
+                    header = Request::parse_http_request_header_string(&string);
+                    if header.name == Header::_CONTENT_LENGTH {
+                        let boxed_content_length = header.value.parse();
+                        if boxed_content_length.is_err() {
+                            let message = format!("unable to parse Content-Length: {}", header.value);
+                            if is_starting_iteration {
+                                return Err(message);
+                            }
+                            eprintln!("unable to read request: {}", message);
+                            break;
+                        }
+                        content_length = boxed_content_length.unwrap();
+                    }
+                }
+
+                request.headers.push(header);
+                iteration_number += 1;
+                continue;
+            }
+
+            break;
         }
 
         // remaining part is request body
+        let _ = content_length;
 
         let mut buf = vec![];
         let _ = cursor.read_to_end(&mut buf).unwrap();
